@@ -455,7 +455,7 @@ pub fn run(tier: Tier, seed: u64) -> i32 {
   rep.floor("worlds", tier.pick(300, 3000));
   rep.floor("distinct_release_sequences", tier.pick(3000, 100_000));
   rep.floor("hasher_runs", tier.pick(2000, 50_000));
-  let n = tier.pick(400, 6000);
+  let n = tier.pick(1600, 24000);
   let acc = par_run(n, |i, acc| case(i, seed, tier, acc));
   rep.finish(acc)
 }
